@@ -11,15 +11,17 @@ import (
 // c07 (HTTP/2 part): message extraction independent of segmentation.
 func c07(args []string) int {
 	run := NewRun("C07", args)
-	run.Sum.Rule = "h2: valid frame sequences (1-8 frames, all types, CONTINUATION runs, padding) and single-field corruptions of them, each delivered whole, cut at EVERY single position (streams up to 700 bytes; 12 random single cuts above), as 1-byte chunks and as 4-20 random chunkings to MFramer.ReadFrame through the Dispatch read loop; client preface cut at every position; HPACK header blocks fed to Decoder.Write whole and cut at every position; real stream/http2 server stream connection (Dispatch -> HandleFrame -> NewStreamDetect/OnReceive): preface + SETTINGS + 1-3 requests (HEADERS, 0-2 CONTINUATION, DATA in 1-2 frames; 30% with one request carrying an invalid header name) cut at every position and as 1-byte reads, requests handed to the proxy compared with whole delivery. Non-trivial: >= 2 events; distinct by stream bytes."
+	run.Sum.Rule = "h2: valid frame sequences (1-8 frames, all types, CONTINUATION runs, padding) and single-field corruptions of them, each delivered whole, cut at EVERY single position (streams up to 700 bytes; 12 random single cuts above), as 1-byte chunks and as 4-20 random chunkings to MFramer.ReadFrame through the Dispatch read loop; client preface cut at every position; HPACK header blocks fed to Decoder.Write whole and cut at every position; real stream/http2 server stream connection (Dispatch -> HandleFrame -> NewStreamDetect/OnReceive): preface + SETTINGS + 1-3 requests (HEADERS, 0-2 CONTINUATION, DATA in 1-2 frames; 30% with one request carrying an invalid header name) cut at every position and as 1-byte reads, requests handed to the proxy compared with whole delivery; a frame that is a stream error for its own stream (6 kinds) in the middle of a valid multi-stream sequence, followed by complete frames SHORTER than it and nothing else: every 2-read cut in the frame and 3-read cuts around it, at the framer and through the real Dispatch. Non-trivial: >= 2 events; distinct by stream bytes."
 	ss := newShardSet(run)
 	compareReference = false
 	framesStreams(run, ss, "c07", true, run.N(40, 400), true)
 	framesStreams(run, ss, "c07m", false, run.N(40, 400), true)
 	framesPreface(run, ss)
 	framesPaddedBoundaries(run, ss)
+	framesAfterStreamError(run, ss)
 	hpackEveryCut(run, ss, run.N(25, 300))
 	c07Dispatch(run, run.N(25, 250))
+	c07DispatchAfterError(run)
 	ss.close()
 	return run.Finish()
 }
